@@ -127,6 +127,9 @@ func ExecSteps(env *sim.Env, root string, steps []Step, st *Stats) []StepResult 
 		case "symlink":
 			os.Remove(p)
 			r.Err = os.Symlink(w(root, string(s.Data)), p)
+		case "hardlink":
+			os.Remove(p)
+			r.Err = os.Link(w(root, string(s.Data)), p)
 		case "truncate":
 			r.Err = os.Truncate(p, int64(s.K))
 		case "zerotail":
